@@ -282,11 +282,19 @@ pub fn sig_class(sig: &str) -> String {
 fn minimise<E: Engine>(e: &mut E, case: E::Case, sig: &str, budget: usize) -> (E::Case, usize) {
     let mut cur = case;
     let mut runs = 0;
+    // minimising is a convenience: bounded in wall time as well (large cases make every candidate slow), and the
+    // in-flight file keeps moving so that the driver's stall watchdog does not take a long minimisation for a hang
+    let t0 = std::time::Instant::now();
+    let mut last_touch = t0;
     'outer: loop {
         let cands = e.shrink(&cur);
         for c in cands {
-            if runs >= budget {
+            if runs >= budget || t0.elapsed().as_secs() >= 20 {
                 break 'outer;
+            }
+            if last_touch.elapsed().as_secs() >= 2 {
+                note("minimising");
+                last_touch = std::time::Instant::now();
             }
             runs += 1;
             let mut o = Obs::default();
